@@ -107,6 +107,16 @@ def run(repo: Repo, chk: Check, thorough: bool = False) -> None:
                 if pol_ and isinstance(t_, ast.Compare) and len(t_.ops) == 1 and isinstance(t_.ops[0], ast.Lt) and norm(t_.left) == norm(idx) and \
                         norm(t_.comparators[0]) == f'len({sub.value.id})':  # type: ignore[attr-defined]
                     why = f'dominated by `{norm(t_)}`'
+        # (b') the same with E given a name first: `location_idx = prio_idx + 1` ... `if location_idx >= len(parts): raise` ... `parts[location_idx]`
+        if why is None and isinstance(idx, ast.Name):
+            from ..util import single_value as _sv17
+            e0 = _sv17(f, idx.id)
+            if isinstance(e0, ast.BinOp) and isinstance(e0.op, ast.Add) and isinstance(e0.left, ast.Name) and e0.left.id in rng and \
+                    isinstance(e0.right, ast.Constant) and isinstance(e0.right.value, int) and e0.right.value >= 0:
+                for t_, pol_ in cfg.dominating_tests(cfg.stmt_of(sub)):
+                    if pol_ and isinstance(t_, ast.Compare) and len(t_.ops) == 1 and isinstance(t_.ops[0], ast.Lt) and norm(t_.left) == idx.id and \
+                            norm(t_.comparators[0]) == f'len({sub.value.id})':  # type: ignore[attr-defined]
+                        why = f'{idx.id} = {norm(e0)} >= 0, dominated by `{norm(t_)}`'
         if why is None and isinstance(idx, ast.BinOp) and isinstance(idx.op, ast.Sub) and isinstance(idx.left, ast.Name) and \
                 isinstance(idx.right, ast.Constant) and isinstance(idx.right.value, int) and idx.right.value >= 0:
             v, c = idx.left.id, idx.right.value
@@ -364,7 +374,20 @@ def run(repo: Repo, chk: Check, thorough: bool = False) -> None:
 
             def values_of(e: ast.AST) -> List[ast.AST]:
                 if isinstance(e, ast.Name):
-                    return [n.value for n in gl.walk() if isinstance(n, ast.Assign) and any(isinstance(t, ast.Name) and t.id == e.id for t in n.targets)]
+                    vals = [n.value for n in gl.walk() if isinstance(n, ast.Assign) and any(isinstance(t, ast.Name) and t.id == e.id for t in n.targets)]
+                    out_v: List[ast.AST] = []
+                    for v in vals:
+                        hs_ = [g for g in repo.funcs.values() if isinstance(v, ast.Call) and g.cls is gl.cls and g is not gl and g.name == call_name(v) and g.name.startswith('_')]
+                        if hs_:
+                            # the value chosen by a private helper of the writer (`domainname = self._getDomainName(obj)`): what it returns - its None
+                            # ("unknown type") is replaced before use when the caller tests for it
+                            none_tested = any(isinstance(c_, ast.Compare) and norm(c_.left) == e.id and norm(c_.comparators[0]) == 'None' for c_ in gl.walk())
+                            for r_ in hs_[0].walk():
+                                if isinstance(r_, ast.Return) and r_.value is not None and not (none_tested and isinstance(r_.value, ast.Constant) and r_.value.value is None):
+                                    out_v.append(r_.value)
+                        else:
+                            out_v.append(v)
+                    return out_v
                 return [e]
             hole_of = {}
             hi = 0
